@@ -19,6 +19,7 @@ def acceptance(cfg):
     )  # fmt: skip
     from pydiverse.transform._internal.errors import DataTypeError
     from pydiverse.transform._internal.ops.op import Ftype
+    from pydiverse.transform._internal.tree import types as T
     from pydiverse.transform._internal.tree.col_expr import Col
 
     ints_sized = [Int8(), Int16(), Int32(), Int64(), UInt8(), UInt16(), UInt32(), UInt64()]
@@ -73,6 +74,18 @@ def acceptance(cfg):
         except Exception as e:  # noqa: BLE001
             viol.append({"key": f"c17.accept.{s}->{t}", "what": f"cast construction raised {type(e).__name__}: {e}", "payload": {}})
             continue
+        # a constant source is subject to the same table as a column source
+        n += 1
+        ccol = Col("c", None, None, T.Const(s), Ftype.ELEMENT_WISE)
+        try:
+            ccol.cast(t)
+            got_const = True
+        except DataTypeError:
+            got_const = False
+        except Exception as e:  # noqa: BLE001
+            got_const = f"{type(e).__name__}"
+        if got_const != got:
+            viol.append({"key": f"c17.accept.const.{s}->{t}", "what": f"cast acceptance differs for a constant source: column {got}, constant {got_const}", "payload": {}})
         want = documented(s, t)
         if len(samples) < 6:
             samples.append({"source": str(s), "target": str(t), "accepted": got})
